@@ -260,6 +260,10 @@ pub fn emit_fmt(out: &mut impl Write, vi: usize, bin: &[u8]) {
             let tos = h.to_string();
             let mut ok = n1 == variant_str_len(vi) && n2 + 2 == n1;
             ok &= disp.as_bytes() == &b1[..] && tos == disp;
+            // Display writes exactly the text whatever the format spec says (width, fill, alignment, precision):
+            // "the text is always exactly the advertised length"
+            ok &= format!("{:>200}", h) == disp && format!("{:<10}", h) == disp && format!("{:*^150}", h) == disp
+                && format!("{:.8}", h) == disp && format!("{:08}", h) == disp && format!("{:.0}", h) == disp;
             // round trips through every parse entry point
             let hh = Some(&h);
             ok &= T::from_str(&disp).ok().as_ref() == hh;
